@@ -202,6 +202,12 @@ private:
     //! Computing Sample Variances"
     double combine_variance(const Aggregate& other) const noexcept
     {
+        // an empty operand contributes nothing; with both empty the term below
+        // would be 0 / 0
+        if (count_ == 0)
+            return other.nvar_;
+        if (other.count_ == 0)
+            return nvar_;
         double delta = mean_ - other.mean_;
         return nvar_ + other.nvar_ +
                (delta * delta) * (count_ * other.count_) /
